@@ -1,5 +1,5 @@
-From E2V Require Import DirBlock.DirBlock DirBlock.DxSearch.
+From E2V Require Import DirBlock.DirBlock DirBlock.DxSearch DirBlock.Nlink.
 Require Extraction.
 Require Import ExtrOcamlBasic.
 Extraction Language OCaml.
-Extraction "dirblock_model.ml" link_block unlink_block dx_leaf.
+Extraction "dirblock_model.ml" link_block unlink_block dx_leaf mkdir_parent.
